@@ -257,20 +257,15 @@ func (ex *Exec) scanCall(c *ssa.CallCommon, ms *modSet, isGo bool) {
 			if r, p, ok := staticRoot(c.Args[0]); ok {
 				key := r + "." + strings.TrimSuffix(p, ".")
 				if ls := ex.specs.Locks[key]; ls != nil {
-					parent := ""
-					pre := strings.TrimSuffix(p, ".")
-					if i := strings.LastIndex(pre, "."); i >= 0 {
-						parent = pre[:i+1]
-					}
 					for _, g := range ls.Guards {
-						ft := ex.fieldTypeAt(r, parent+g)
+						ft := ex.fieldTypeAt(r, g)
 						if ft == nil {
 							continue
 						}
 						if mt, ok := types.Unalias(ft).Underlying().(*types.Map); ok {
 							ex.mapArrs(mt, ms)
 						} else {
-							ms.arr["H."+r+"."+parent+g] = true
+							ms.arr["H."+r+"."+g] = true
 						}
 					}
 				}
